@@ -65,9 +65,47 @@ REF_RESET_VECTOR = 0x200
 # the architectural no-op of RISC-V, listed in the encoding table: addi x0, x0, 0
 NOP_WORD = 0b10011
 
-EXPLANATION = "..."
-ASSUMPTIONS = []
-
+EXPLANATION = (
+    "CLAUSES ONLY. C20 quantifies over program executions (every TinyRV0 program x every memory latency / stall probability / "
+    "source-sink delay); that is NOT decided here and cannot be by static analysis: pipeline control of ProcRTL and ProcCL "
+    "(stalls, bypass selection, squashes, queue back-pressure, ordering of in-flight requests), instruction adjacency / hazards, "
+    "timing, termination and the interface adapters are outside every rule below. What IS decided, from the source alone (ast; "
+    "nothing is imported, elaborated or run), is single-instruction table / sibling agreement, each a necessary condition of the "
+    "property: "
+    "R-C20-isa-doc: the ISA document tinyrv0-isa.md, parsed on every run (instruction list, Semantics/Format lines, type, "
+    "immediate and encoding diagrams, CSR numbers, reset vector), states the frozen reference ISA. "
+    "R-C20-encoding: tinyrv0_encoding_table (mask/match, operand order of the templates, row overlap) and the assemble_field_* "
+    "placement of every operand bit agree with the document's diagrams. "
+    "R-C20-isa-set: document list = document details = table rows = names TinyRV0Inst.name returns = execute branches of ProcFL = "
+    "of ProcCL. "
+    "R-C20-decode: on EVERY word of every row's cube (exhaustive case split on the tested instruction bits, never sampled) "
+    "TinyRV0Inst.name returns the row's name and the RTL DecodeInstType yields one code per instruction, distinct between "
+    "instructions. "
+    "R-C20-fl / -cl / -rtl: for every instruction (CSR instructions: for every CSR number the ISA defines) the model's "
+    "decode+execute code, evaluated symbolically over all words of the cube and symbolic register/memory values, denotes the same "
+    "normal form as the document's semantics line: operation, operand registers (as instruction bit positions), every immediate "
+    "bit, destination, load/store address and data, proc2mngr/mngr2proc/accelerator traffic, next PC incl. branch condition and "
+    "target. For ProcRTL this composes DecodeInstType -> the control-table row (bit layout of concat / cs slices, pipeline "
+    "hand-over of each control field) -> ImmGenRTL, operand muxes, AluRTL function table, write-back mux, port wiring of "
+    "ProcDpath/ProcRTL, in a steady-flow abstraction (valid=1, no stall/squash, pipeline registers transparent, bypass muxes = "
+    "register reads). For ProcCL one instruction flows fetch -> execute -> write-back -> next fetch with all queues ready. "
+    "R-C20-arch: x0 hard-wired in all three register files; reset vector. "
+    "R-C20-cksum: ChecksumFL.checksum, ChecksumCL (unpack + same function) and ChecksumRTL (8 chained step units + combine) "
+    "denote the same function of the 8 words in a modular-arithmetic normal form (word order, widths, modulus 2^16, sum2:sum1); "
+    "this clause is complete for the checksum part of the property up to the trusted Bits arithmetic, queueing/timing excluded.")
+ASSUMPTIONS = [
+    "single-instruction semantics composes to program semantics only if the pipeline control is correct: stalls, bypasses, squashes, "
+    "queue back-pressure and response ordering of ProcRTL/ProcCL are NOT analysed (steady-flow abstraction: valid=1, stall=squash=0, "
+    "ready=1, pipeline registers hand their value to the next stage, operand bypass muxes deliver the register-file value)",
+    "Bits arithmetic is exact modulo 2^n and slices/concat/sext/zext address the named bits (C04, C05); Python int/if/elif semantics",
+    "stdlib components Mux, RegEnRst, Adder, Incrementer, RegisterFile(const_zero) behave as their names say; message field order is "
+    "read from MemMsg.py / XcelMsg.py, MemMsgType/XcelMsgType READ=0 WRITE=1 are read from the source",
+    "FL interface methods (imem/dmem.read/write, xcel.read/write, proc2mngr, mngr2proc) and CL queues deliver what was requested, in order",
+    "CSR numbers other than proc2mngr, mngr2proc and the accelerator block are undefined by the ISA and not compared; illegal "
+    "instruction words (outside every row of the encoding table) are not compared",
+    "IsaImpl.assemble_inst / assemble() (generic assembler driver, label handling, data sections) are not analysed beyond the table and "
+    "the field functions; the harness and the test memory are out of scope",
+]
 
 # ---------------------------------------------------------------------------
 # effects of one instruction: the common normal form of the specification and of the three models
@@ -376,30 +414,39 @@ _doc_cache = {}
 
 
 def doc_spec(repo):
-    text = repo.src(ISA)
+    return spec_from_text(repo.src(ISA))
+
+
+def spec_from_text(text):
+    import re
     key = hash(text)
     if key in _doc_cache:
         return _doc_cache[key]
     doc = IsaDoc(text)
     types = {}
     for ty in ('R', 'I', 'S'):
-        types[ty] = {text: (hi, lo) for hi, lo, text in IsaDoc.diagram(doc.section(ty + '-type')) if text != 'imm' or ty == 'I'}
+        types[ty] = {}
+        for hi, lo, cell in IsaDoc.diagram(doc.section(ty + '-type')):
+            if cell != 'imm' or ty == 'I':
+                types[ty][cell] = (hi, lo)
     imms = {}
     for it in ('I', 'S', 'B'):
         vec = [None] * 32
-        for hi, lo, text in IsaDoc.diagram(doc.section(it + '-immediate')):
+        for hi, lo, cell in IsaDoc.diagram(doc.section(it + '-immediate')):
             n = hi - lo + 1
-            if text.startswith('<--'):
-                src = [int(text[3:].strip())] * n
-            elif text == 'z':
+            if cell.startswith('<--'):
+                src = [int(cell[3:].strip())] * n
+            elif cell == 'z':
                 src = ['z'] * n
-            elif ':' in text:
-                a, b = (int(x) for x in text.split(':'))
+            elif ':' in cell:
+                a, b = (int(x) for x in cell.split(':'))
                 src = list(range(b, a + 1))
+            elif cell.isdigit():
+                src = [int(cell)]
             else:
-                src = [int(text)]
+                raise AnalysisError(f"cannot read cell `{cell}` of the {it}-immediate diagram")
             if len(src) != n:
-                raise AnalysisError(f"{it}-immediate cell `{text}` does not fill bits {hi}:{lo}")
+                raise AnalysisError(f"{it}-immediate cell `{cell}` does not fill bits {hi}:{lo}")
             vec[lo:hi + 1] = src
         if None in vec:
             raise AnalysisError(f"{it}-immediate diagram does not cover 32 bits")
@@ -418,14 +465,14 @@ def doc_spec(repo):
         fmt = [x.strip() for x in d['format'].split(',')]
         ty = fmt[0].split('-')[0]
         imm = fmt[1].split('-')[0] if len(fmt) > 1 else None
+        if imm is not None and imm not in imms:
+            raise AnalysisError(f"{name}: unknown immediate type `{fmt[1]}` in the ISA document")
         insts[name] = dict(cells=d['diagram'], imm=imm, semantics=d['semantics'], ast=U.parse_semantics(d['semantics']),
-                           type=ty)
+                           type=ty, assembly=d.get('assembly'))
     rv = None
-    for ln in doc.section('Reset Vector'):
-        import re
-        m = re.search(r'reset vector at\s+(0x[0-9a-fA-F]+)', ln)
-        if m:
-            rv = int(m.group(1), 16)
+    m = re.search(r'reset vector at\s+(0x[0-9a-fA-F]+)', ' '.join(doc.section('Reset Vector')))
+    if m:
+        rv = int(m.group(1), 16)
     sp = Spec(types, imms, csr, insts, rv)
     sp.listed = doc.instruction_list()
     _doc_cache[key] = sp
@@ -707,6 +754,11 @@ class CLModel(ProcModel):
                     self.e['resp'][role] += 1
             data = {'imem.resp': self.inst, 'dmem.resp': Sym(('dmemresp',), 32), 'xcel.resp': Sym(('xcelresp',), 32)}[role]
             return Rec(role, data=data)
+        if role:
+            # the model dequeues a response nobody requested: in the real model this blocks / raises; recorded as a
+            # definite deviation instead of refusing the analysis
+            self.e['notes'].append(f"{q.split('.', 1)[-1]} ({role}) dequeued although no such response is outstanding")
+            return Rec(role, data=Sym(('nothing', role), 32))
         raise AnalysisError(f"{q} is read while it is empty in the single-instruction flow")
 
     def call(self, path, args, kwargs):
@@ -1026,13 +1078,13 @@ def rule_fl(repo):
     return semantics_rule(repo, 'R-C20-fl',
                           "ProcFL: decode (TinyRV0Inst.name) + execute branch of every instruction denotes the ISA semantics "
                           "(same operation, operands, immediate bits, destination, memory/manager/accelerator access, next PC)",
-                          run_fl, FL, 'ProcFL.construct.up_ProcFL', 13)
+                          run_fl, FL, 'ProcFL.construct.up_ProcFL', 12)
 
 
 def rule_cl(repo):
     return semantics_rule(repo, 'R-C20-cl',
                           "ProcCL: one instruction flowing through fetch, execute and write-back denotes the ISA semantics",
-                          run_cl, CL, 'ProcCL.construct', 13)
+                          run_cl, CL, 'ProcCL.construct', 12)
 
 
 def rule_rtl(repo):
@@ -1040,10 +1092,819 @@ def rule_rtl(repo):
                        "ProcRTL: decoder output -> control-table row -> datapath (immediate generator, operand muxes, ALU "
                        "function table, write-back mux, memory/manager/accelerator ports) composed through the wiring of "
                        "ProcRTL denotes the ISA semantics, in the steady-flow abstraction (no stall, no squash, no bypass)",
-                       run_rtl, CTRL, 'ProcCtrl.construct.comb_control_table_D', 13)
+                       run_rtl, CTRL, 'ProcCtrl.construct.comb_control_table_D', 12)
     st = rtl_setup(repo)
     r.observations.append(f"steady-flow abstraction: {len(st.over)} boundary/bookkeeping signals fixed, operand bypass "
                           f"muxes treated as register reads: {', '.join(st.bypass_muxes)}")
     if len(st.bypass_muxes) < 2:
         raise AnalysisError("R-C20-rtl: the two operand paths from the register file were not found")
     return r
+
+
+# ---------------------------------------------------------------------------
+# R-C20-isa-doc: the document (parsed on every run) still says what the frozen reference says
+def spec_differences(repo, ref, doc):
+    """[(construct, message)] -- empty when the parsed document agrees with the reference"""
+    out, checked = [], []
+    listed = getattr(doc, 'listed', None)
+    if listed is not None and set(listed) != set(doc.insts):
+        out.append(('instruction list', f"the overview lists {sorted(listed)} but details are given for {sorted(doc.insts)}"))
+    for name in ref.insts:
+        if name not in doc.insts:
+            out.append((name, f"instruction {name} of the reference ISA is not described in the document"))
+            continue
+        checked.append(name)
+        if ref.cube(name) != doc.cube(name):
+            out.append((f"{name} encoding", f"document encodes {name} as {doc.cube(name)}, the reference as {ref.cube(name)}"))
+            continue
+        for (tag, c), (tag2, c2) in zip(ref.cases(name), doc.cases(name)):
+            if (tag, c) != (tag2, c2):
+                out.append((f"{name}{tag} CSR numbers", f"document case {tag2} {c2}, reference {tag} {c}"))
+                continue
+            stats = [0]
+            parts = compare_case(c, lambda cu, ctx: ref.run(repo, name, cu, ctx),
+                                 lambda cu, ctx: doc.run(repo, name, cu, ctx), stats)
+            bad = [(cc, d) for cc, d in parts if d]
+            if bad:
+                out.append((f"{name}{tag} semantics", f"document says `{doc.insts[name]['semantics']}` "
+                            f"({doc.insts[name]['type']}-type, {doc.insts[name]['imm']}-immediate), reference "
+                            f"`{ref.insts[name]['semantics']}`: {describe(bad[0][1])}"))
+    for it, vec in ref.imms.items():
+        if doc.imms.get(it) != vec:
+            out.append((f"{it}-immediate", f"document builds the {it}-immediate from instruction bits {doc.imms.get(it)}"))
+    for ty, fields in ref.types.items():
+        for f, pos in fields.items():
+            if doc.types.get(ty, {}).get(f) != pos:
+                out.append((f"{ty}-type field {f}", f"document puts {f} at {doc.types.get(ty, {}).get(f)}, reference at {pos}"))
+    if doc.csr != ref.csr:
+        out.append(('CSR numbers', f"document {doc.csr}, reference {ref.csr}"))
+    if doc.reset_vector != ref.reset_vector:
+        out.append(('reset vector', f"document {doc.reset_vector}, reference {ref.reset_vector}"))
+    return out, checked
+
+
+def rule_isa_doc(repo):
+    r = RuleResult('R-C20-isa-doc', "the ISA document (instruction list, semantics lines, type / immediate / encoding diagrams, "
+                                    "CSR numbers, reset vector -- parsed on every run) states the frozen reference ISA")
+    ref = reference_spec()
+    text = repo.src(ISA)
+    doc = spec_from_text(text)
+    diffs, checked = spec_differences(repo, ref, doc)
+    bad = {c for c, _ in diffs}
+    for c, msg in diffs:
+        r.bad(ISA, 'document', c, msg + " -- the document is the specification the three models are compared with")
+    for name in checked:
+        if not any(c.startswith(name + ' ') or c.startswith(name + '@') or c == name for c in bad):
+            r.ok(ISA, 'document', f"{name}: {doc.insts[name]['semantics']} [{doc.cube(name)}]")
+    for it in ref.imms:
+        if f"{it}-immediate" not in bad:
+            r.ok(ISA, 'document', f"{it}-immediate bit sources")
+    for ty in ref.types:
+        if not any(c.startswith(f"{ty}-type") for c in bad):
+            r.ok(ISA, 'document', f"{ty}-type field positions")
+    if 'CSR numbers' not in bad:
+        r.ok(ISA, 'document', f"CSR numbers {doc.csr}")
+    if 'reset vector' not in bad:
+        r.ok(ISA, 'document', f"reset vector {doc.reset_vector:#x}")
+    extra = sorted(set(doc.insts) - set(ref.insts))
+    if extra:
+        r.observations.append(f"instructions described in the document but not in the frozen reference (compared among the "
+                              f"models and the document only): {extra}")
+    # embedded positive examples (the expected finding count on the real tree is zero): tampered copies of the document
+    probes = [("R[rd] = R[rs1] + R[rs2]", "R[rd] = R[rs1] + R[rs1]"),
+              ("| 0000000    | rs2     | rs1     | 111  |", "| 0000000    | rs2     | rs1     | 110  |"),
+              ("|                               <-- 31 |7 | 30:25     | 11:8  |z |",
+               "|                               <-- 31 |7 | 30:25     | 11:8  |8 |"),
+              ("M_4B[ R[rs1] + sext(imm) ] = R[rs2]", "M_4B[ R[rs2] + sext(imm) ] = R[rs1]")]
+    for old, new in probes:
+        if text.count(old) < 1:
+            raise AnalysisError(f"R-C20-isa-doc: probe anchor `{old}` not found in the document")
+        pd, _ = spec_differences(repo, ref, spec_from_text(text.replace(old, new, 1)))
+        if not pd:
+            raise AnalysisError(f"R-C20-isa-doc: the embedded tampered document (`{old}` -> `{new}`) is not flagged")
+    r.evaluations += len(probes)
+    r.require_floor(16)
+    return r
+
+
+# ---------------------------------------------------------------------------
+# R-C20-encoding: assembler / disassembler table and field functions vs the document
+TAG_IMM = {'i_imm': 'I', 's_imm': 'S', 'b_imm': 'B'}
+
+
+def _operands(text):
+    return text.translate(str.maketrans(',()', '   ')).split()
+
+
+def assembler_placement(repo, m, fref, spec_tag):
+    """run assemble_field_<tag> on an unknown operand: [(trail, final bits)] of the paths that do not raise"""
+    def run(cube, ctx):
+        it = Interp(repo, m, ctx, self_name=None)
+        word = BV(('w', k) for k in range(32))
+        try:
+            it.call_func(fref, [word, {}, 0, U.StrTok()], {})
+        except Raised:
+            return None
+        return it.last_env.get([a.arg for a in fref.node.args.args][0])
+    return [(tr, res) for _, tr, res in explore(U.FULL, run) if res is not None]
+
+
+def rule_encoding(repo):
+    r = RuleResult('R-C20-encoding', "tinyrv0_encoding_table (mask/match, operand order) and the assemble_field_* functions agree "
+                                     "with the encoding, type and immediate diagrams of the ISA document; no instruction word "
+                                     "matches two rows (except the no-op alias of addi, listed first)")
+    spec = doc_spec(repo)
+    m, rows = encoding_table(repo)
+    fn = '<module>'
+    names = [row[0] for row in rows]
+    for name in spec.insts:
+        if names.count(name) != 1:
+            r.bad(m, fn, f"row {name}", f"the table has {names.count(name)} rows for the ISA instruction {name}: it cannot be "
+                                        f"assembled (KeyError) / is assembled from the last duplicate")
+    for name, tmpl, cube, mask, match in rows:
+        cons = f"row {name}: mask/match"
+        if cube is None:
+            r.bad(m, fn, cons, f"match {match:#034b} has bits outside mask {mask:#034b}: no word ever matches this row "
+                               f"(disassembly raises 'Illegal instruction')")
+            continue
+        if name == 'nop':
+            want = nop_cube(spec)
+        elif name in spec.insts:
+            want = spec.cube(name)
+        else:
+            r.bad(m, fn, cons, f"row `{tmpl}` is not an instruction of the ISA document")
+            continue
+        if cube != want:
+            what = 'assembled word' if cube.match != want.match else 'decode mask'
+            r.bad(m, fn, cons, f"{what} of {name} is {cube}, the document says {want}: "
+                               + ("every program using it is assembled to a different instruction"
+                                  if cube.match != want.match else "the table decodes words of other instructions as this one / rejects legal words"))
+        else:
+            r.ok(m, fn, cons + f" = {cube}")
+        # operand order of the template vs the assembly syntax of the document
+        if name in spec.insts and spec.insts[name].get('assembly'):
+            have = _operands(tmpl)[1:]
+            want_ops = _operands(spec.insts[name]['assembly'])[1:]
+            norm_have = ['imm' if t in TAG_IMM else ('csr' if t == 'csrnum' else t) for t in have]
+            imm_ok = all(TAG_IMM[t] == spec.insts[name]['imm'] for t in have if t in TAG_IMM)
+            cons2 = f"row {name}: operands {' '.join(have)}"
+            if norm_have != want_ops or not imm_ok:
+                r.bad(m, fn, cons2, f"template `{tmpl}` does not follow the assembly syntax `{spec.insts[name]['assembly']}` "
+                                    f"({spec.insts[name]['imm']}-immediate): operands are assembled into the wrong fields")
+            else:
+                r.ok(m, fn, cons2)
+    # pairwise disjointness (first-match decoding)
+    good = [(i, row) for i, row in enumerate(rows) if row[2] is not None]
+    for i, a in good:
+        for j, b in good:
+            if i < j and (a[2] & b[2]) is not None:
+                cons = f"rows {a[0]} / {b[0]} overlap"
+                if a[0] == 'nop' and b[2].contains(a[2]) and b[0] == 'addi':
+                    r.ok(m, fn, cons + " (no-op alias listed before addi)")
+                else:
+                    r.bad(m, fn, cons, f"word {(a[2] & b[2])} matches both rows: the disassembler shows `{a[0]}` for "
+                                       f"a `{b[0]}` instruction (or vice versa)")
+    # field placement of the assembler = inverse of the field extraction the document defines
+    fields_node = m.assigns.get('tinyrv0_fields')
+    if fields_node is None:
+        raise AnalysisError("anchor vanished: tinyrv0_fields")
+    fields = Interp(repo, m, self_name=None).ev(fields_node)
+    used = []
+    for name, tmpl, cube, mask, match in rows:
+        for t in _operands(tmpl)[1:]:
+            if (t, name) not in used and t not in [u[0] for u in used]:
+                used.append((t, name))
+    for tag, iname in used:
+        fl = fields.get(tag) if isinstance(fields, dict) else None
+        if not (isinstance(fl, list) and fl and isinstance(fl[0], U.FuncRef)):
+            r.bad(m, fn, f"field {tag}", f"tinyrv0_fields has no assemble function for `{tag}` used by `{iname}`")
+            continue
+        fref = fl[0]
+        want = [('w', k) for k in range(32)]
+        if iname not in spec.insts:
+            continue
+        if tag in TAG_IMM:
+            vec, seen = spec.imms[TAG_IMM[tag]], set()
+            for k, src in enumerate(vec):
+                if src != 'z' and src not in seen:
+                    seen.add(src)
+                    want[src] = ('m', k)
+        else:
+            hi, lo = spec.field(iname, 'csr' if tag == 'csrnum' else tag)
+            for k in range(hi - lo + 1):
+                want[lo + k] = ('m', k)
+        paths = assembler_placement(repo, m, fref, tag)
+        r.evaluations += len(paths)
+        cons = f"{fref.node.name}: operand bit k -> instruction bit"
+        if not paths:
+            r.bad(m, fref.node.name, cons, "no path of the function assembles a numeric operand")
+            continue
+        problems = []
+        for tr, bits in paths:
+            named = [c[1] for c, b in tr if c[0] == 'streq' and b]
+            if not isinstance(bits, BV) or bits.n != 32:
+                problems.append("the instruction word is not updated")
+                continue
+            if named and tag == 'csrnum':
+                hi, lo = spec.field(iname, 'csr')
+                got = BV(bits.bits[lo:hi + 1])
+                nm = named[0].strip("'\"")
+                if nm not in spec.csr or not got.concrete() or got.value() != spec.csr[nm]:
+                    problems.append(f"CSR name {nm} is assembled to {got.value() if got.concrete() else got!r}, "
+                                    f"the document says {spec.csr.get(nm)}")
+                rest = list(bits.bits)
+                rest[lo:hi + 1] = want[lo:hi + 1]
+                if rest != want:
+                    problems.append("bits outside the csr field are modified")
+                continue
+            if list(bits.bits) != want:
+                wrong = [k for k in range(32) if bits.bits[k] != want[k]]
+                problems.append(f"instruction bits {wrong} receive {[bits.bits[k] for k in wrong[:6]]} instead of "
+                                f"{[want[k] for k in wrong[:6]]}")
+        if problems:
+            r.bad(m, fref.node.name, cons, f"operand `{tag}` is placed differently from where the ISA reads it: {problems[0]}; "
+                                           f"every assembled program using the field executes another instruction")
+        else:
+            r.ok(m, fref.node.name, cons + f" ({len(paths)} paths)")
+    r.require_floor(26)
+    return r
+
+
+# ---------------------------------------------------------------------------
+# R-C20-isa-set: the instruction sets of all tables are equal
+def _compared_strings(func, skip=()):
+    out = []
+    for n in ast.walk(func):
+        if isinstance(n, ast.Compare) and len(n.ops) == 1 and isinstance(n.ops[0], ast.Eq):
+            for a, b in ((n.left, n.comparators[0]), (n.comparators[0], n.left)):
+                if isinstance(a, ast.Name) and isinstance(b, ast.Constant) and isinstance(b.value, str):
+                    out.append(b.value)
+    return out
+
+
+def rule_isa_set(repo):
+    r = RuleResult('R-C20-isa-set', "the ISA document's instruction list, its detailed sections, the encoding table, the names "
+                                    "TinyRV0Inst.name can return, the execute branches of ProcFL and ProcCL are the same set "
+                                    "(plus the no-op alias)")
+    spec = doc_spec(repo)
+    isa = set(spec.insts)
+    enc = repo.mod(ENC)
+    _, rows = encoding_table(repo)
+    namefn = enc.get_func('TinyRV0Inst.name')
+    returns = [n.value.value for n in ast.walk(namefn) if isinstance(n, ast.Return) and isinstance(n.value, ast.Constant)
+               and isinstance(n.value.value, str)]
+    _, _, flb = fl_block(repo)
+    _, clm, _, _, execute, _ = cl_blocks(repo)
+    sources = [
+        (repo.mod(ENC), '<module>', 'overview list of the ISA document', set(getattr(spec, 'listed', [])), False),
+        (enc, '<module>', 'rows of tinyrv0_encoding_table', {row[0] for row in rows}, True),
+        (enc, 'TinyRV0Inst.name', 'names returned by TinyRV0Inst.name', {x for x in returns if x != '????'}, True),
+        (repo.mod(FL), 'ProcFL.construct.up_ProcFL', 'execute branches of ProcFL', set(_compared_strings(flb)), True),
+        (clm, 'ProcCL.construct.' + execute.func.name, 'execute branches of ProcCL', set(_compared_strings(execute.func)), True),
+    ]
+    for mod, fn, what, have, nop_ok in sources:
+        want = isa | ({'nop'} if nop_ok and 'nop' in have else set())
+        for name in sorted(want | have):
+            cons = f"{what}: {name}"
+            if name in have and name in want:
+                r.ok(mod, fn, cons)
+            elif name in want:
+                r.bad(mod, fn, cons, f"ISA instruction {name} is missing from the {what}: a program using it "
+                                     f"cannot be assembled / is rejected / is silently skipped by this model")
+            else:
+                r.bad(mod, fn, cons, f"`{name}` in the {what} is not an instruction of the ISA document")
+    r.require_floor(50)
+    return r
+
+
+# ---------------------------------------------------------------------------
+# R-C20-decode: the three decoders agree with the encoding table on every legal instruction word
+def run_name(repo, cube, ctx):
+    m = repo.mod(ENC)
+    it = Interp(repo, m, ctx, self_name=None)
+    cref = it.lookup('TinyRV0Inst')
+    try:
+        obj = it.call(cref, [instvec(cube)], {})
+        return it.getattr(obj, 'name')
+    except Raised as e:
+        return '<raises ' + e.what + '>'
+
+
+def run_decoder(repo, cube, ctx):
+    st = rtl_setup(repo)
+    over = dict(st.over)
+    over[st.roles['imem.resp'] + '.deq.ret.data'] = instvec(cube)
+    ev = Eval(st.d, over, ctx, alias=st.alias)
+    for p in st.d.insts:
+        ev.over[(p + '.reset') if p else 'reset'] = BV.const(0, 1)
+    decs = [p for p, i in st.d.insts.items() if i.kind == 'src' and i.cls.name == 'DecodeInstType']
+    if len(decs) != 1:
+        raise AnalysisError("ProcCtrl no longer instantiates exactly one DecodeInstType")
+    v = ev.value(decs[0] + '.out')
+    if not (isinstance(v, BV) and v.concrete()):
+        raise AnalysisError("decoder output is not a constant on the evaluated case")
+    return v.value()
+
+
+def rule_decode(repo):
+    r = RuleResult('R-C20-decode', "for every row of the encoding table and EVERY word of its cube (exhaustive case split on the "
+                                   "instruction bits a decoder tests): TinyRV0Inst.name (FL, CL) returns the row's name, and the "
+                                   "RTL DecodeInstType yields one code per instruction, different from every other instruction's")
+    m, rows = encoding_table(repo)
+    enc = repo.mod(ENC)
+    inst = repo.mod(INSTRTL)
+    spec = doc_spec(repo)
+    codes = {}
+    for name, tmpl, cube, mask, match in rows:
+        if cube is None:
+            continue
+        leaves = explore(cube, lambda cu, ctx: run_name(repo, cu, ctx))
+        r.evaluations += len(leaves)
+        wrong = []
+        for c, tr, got in leaves:
+            ok = got == name or (c == nop_cube(spec) and got in ('nop', 'addi'))
+            if not ok:
+                wrong.append((c, got))
+        cons = f"TinyRV0Inst.name on the words of `{name}` {cube}"
+        if wrong:
+            c, got = wrong[0]
+            r.bad(enc, 'TinyRV0Inst.name', cons, f"words {c} are legal `{name}` instructions but decode to {got!r}: ProcFL and "
+                                                 f"ProcCL execute them as another instruction / raise")
+        else:
+            r.ok(enc, 'TinyRV0Inst.name', cons, note=f"{len(leaves)} sub-cubes")
+        leaves = explore(cube, lambda cu, ctx: run_decoder(repo, cu, ctx))
+        r.evaluations += len(leaves)
+        codes[name] = {}
+        for c, tr, got in leaves:
+            if name == 'addi' and c == nop_cube(spec):
+                continue                      # the no-op alias may have a code of its own
+            codes[name].setdefault(got, []).append(c)
+    # RTL: one code per instruction (csrr may use one code per CSR class), codes of different instructions differ
+    for name, by_code in codes.items():
+        cons = f"DecodeInstType on the words of `{name}`"
+        if name in spec.insts:
+            case_cubes = [c for _, c in spec.cases(name)]
+        else:
+            case_cubes = [nop_cube(spec)]
+        bad = None
+        for cc in case_cubes:
+            hit = {code for code, cs in by_code.items() if any((c & cc) is not None for c in cs)}
+            if len(hit) != 1:
+                bad = f"words {cc} decode to {len(hit)} different instruction-type codes {sorted(hit)}"
+        for other, oc in codes.items():
+            if other == name or {name, other} == {'nop', 'addi'}:
+                continue
+            shared = set(by_code) & set(oc)
+            if shared:
+                bad = f"code {sorted(shared)[0]} is produced for `{name}` words and for `{other}` words: the control unit " \
+                      f"cannot tell them apart"
+        if bad:
+            r.bad(inst, 'DecodeInstType.construct.comb_logic', cons, bad)
+        else:
+            r.ok(inst, 'DecodeInstType.construct.comb_logic', cons + f" -> codes {sorted(by_code)}")
+    r.require_floor(20)
+    return r
+
+
+# ---------------------------------------------------------------------------
+# R-C20-arch: x0 is hard-wired to zero, the reset vector
+def _regfile_ctor(repo, mod, construct, sname):
+    """`s.R = RegisterFile( n )` -> (resolved class module/node, n)"""
+    for st in construct.body:
+        if isinstance(st, ast.Assign) and isinstance(st.value, ast.Call) and \
+                any(isinstance(t, ast.Attribute) and norm(t) == f'{sname}.R' for t in st.targets):
+            r = U.resolve_name(repo, mod, norm(st.value.func))
+            if r is not None and isinstance(r[1], ast.ClassDef):
+                n = Interp(repo, mod, self_name=None).ev(st.value.args[0]) if st.value.args else None
+                return r, n
+    return None, None
+
+
+def rule_arch(repo):
+    r = RuleResult('R-C20-arch', "x0 is hard-wired to zero in all three register files (a write to index 0 is dropped, every other "
+                                 "write lands in its own register) and all three models start fetching at the ISA reset vector")
+    spec = doc_spec(repo)
+    rv = spec.reset_vector
+    if rv is None:
+        raise AnalysisError("anchor vanished: reset vector in the ISA document")
+    enc = repo.mod(ENC)
+    # FL / CL register file class
+    cref = Interp(repo, enc, self_name=None).lookup('RegisterFile')
+    if not isinstance(cref, U.ClassRef):
+        raise AnalysisError("anchor vanished: RegisterFile in tinyrv0_encoding.py")
+
+    def run_set(cube, ctx):
+        it = Interp(repo, enc, ctx, self_name=None)
+        rf = it.call(cref, [32], {})
+        idx = BV(instvec(cube).bits[0:5])
+        val = Sym(('v',), 32)
+        setter = it.getattr(rf, '__setitem__')
+        it.call(setter, [idx, val], {})
+        regs = rf.fields.get('regs')
+        getter = it.getattr(rf, '__getitem__')
+        return idx.value(), [termof(x) for x in regs], termof(it.call(getter, [idx], {}))
+
+    leaves = explore(Cube(~0x1f, 0), run_set)
+    r.evaluations += len(leaves)
+    zero, v = ('const', 0), ('v',)
+    problems = []
+    seen = set()
+    for c, tr, (k, regs, back) in leaves:
+        seen.add(k)
+        want = [zero] * 32
+        if k != 0:
+            want[k] = v
+        if regs != want:
+            problems.append(f"a write to x{k} leaves the registers as {[i for i, t in enumerate(regs) if t != zero]} modified")
+        elif back != want[k]:
+            problems.append(f"reading x{k} after the write does not return the register")
+    if seen != set(range(32)):
+        problems.append(f"case analysis covered only indices {sorted(seen)}")
+    cons = "RegisterFile.__setitem__/__getitem__: x0 dropped, x1..x31 stored"
+    if problems:
+        r.bad(enc, 'RegisterFile.__setitem__', cons, problems[0] + ": FL and CL diverge from the ISA whenever a program targets that register")
+    else:
+        r.ok(enc, 'RegisterFile.__setitem__', cons, note="32 indices")
+    for rel, cls in ((FL, 'ProcFL'), (CL, 'ProcCL')):
+        mod = repo.mod(rel)
+        construct = mod.get_func(cls + '.construct')
+        sname = construct.args.args[0].arg
+        (res, n) = _regfile_ctor(repo, mod, construct, sname)
+        cons = f"{cls}: {sname}.R = RegisterFile(32)"
+        if res is None or res[1] is not cref.node or n != 32:
+            r.bad(mod, cls + '.construct', cons, "the register file is not the 32-entry RegisterFile of tinyrv0_encoding.py "
+                                                 "(x0 semantics / number of registers differ from the ISA)")
+        else:
+            r.ok(mod, cls + '.construct', cons)
+    st = rtl_setup(repo)
+    kw = st.rf.kwargs
+    cons = "ProcDpath: RegisterFile(nregs=32, const_zero=True)"
+    dp = repo.mod(DPATH)
+    if kw.get('const_zero') is not True or kw.get('nregs', 32) != 32:
+        r.bad(dp, 'ProcDpath.construct', cons, f"register file built with {kw}: x0 is not hard-wired to zero in the RTL model "
+                                               f"(addi x0, x0, 1 changes later reads of x0)")
+    else:
+        r.ok(dp, 'ProcDpath.construct', cons)
+    # reset vector
+    pc = Sym(('pc',), 32)
+    # FL: the reset branch and the initial value
+    m, construct, blk = fl_block(repo)
+    sname = construct.args.args[0].arg
+
+    class ResetFL(FLModel):
+        def get(self, path):
+            if path == 's.reset':
+                return 1
+            return super().get(path)
+    model = ResetFL(instvec(U.FULL))
+    try:
+        Interp(repo, m, Ctx(), model, self_name=sname).run(blk.body)
+    except U._Return:
+        pass
+    e = model.e
+    quiet = not (e['reg'] or e['mem'] or e['send'] or e['get'] or e['xw'] or e['xr'] or e['load'] or e['fetch'])
+    init = design(repo, FL, 'ProcFL').top.consts.get('@PC')
+    cons = f"ProcFL: PC = {rv:#x} at construction and under reset"
+    if termof(model.pc) != ('const', rv) or not quiet or init is None or termof(init) != ('const', rv):
+        r.bad(m, 'ProcFL.construct.up_ProcFL', cons, f"PC is {show(termof(model.pc))} after reset (initial {init!r}), the ISA reset "
+                                                     f"vector is {rv:#x}: the first instruction is fetched from the wrong address")
+    else:
+        r.ok(m, 'ProcFL.construct.up_ProcFL', cons)
+    # CL
+    d, cm, cconstruct, fetch, execute, wb = cl_blocks(repo)
+    csname = cconstruct.args.args[0].arg
+    pc_attr = cl_pc_attr(fetch, csname)
+    cmodel = CLModel(instvec(U.FULL), d, msg_names(repo, cm, cconstruct))
+    init = cmodel.attrs.get(pc_attr)
+    cmodel.attrs[pc_attr] = pc
+    orig_get = cmodel.get
+    cmodel.get = lambda path: 1 if path == csname + '.reset' else orig_get(path)
+    try:
+        Interp(repo, cm, Ctx(), cmodel, self_name=csname).run(fetch.func.body)
+    except U._Return:
+        pass
+    after = cmodel.attrs.get(pc_attr)
+    cons = f"ProcCL: {pc_attr} = {rv:#x} at construction and under reset"
+    if after is None or termof(after) != ('const', rv) or init is None or termof(init) != ('const', rv) or cmodel.e['fetch']:
+        r.bad(cm, 'ProcCL.construct.' + fetch.func.name, cons, f"{pc_attr} is {after!r} after reset (initial {init!r}), the ISA reset "
+                                                               f"vector is {rv:#x}")
+    else:
+        r.ok(cm, 'ProcCL.construct.' + fetch.func.name, cons)
+    # RTL: the first fetch address is (reset value of the PC register) + (increment)
+    incs = [i for i in st.incr if any(mn == st.pcreg.path + '.out' for mn, sl in st.d.members((i.path + '.in_', None)))]
+    cons = "ProcDpath: PC register reset value + increment = reset vector"
+    rvk = st.pcreg.kwargs.get('reset_value', 0)
+    if len(incs) != 1 or not isinstance(rvk, int) or not isinstance(incs[0].kwargs.get('amount', 1), int):
+        raise AnalysisError("R-C20-arch: cannot read the PC register reset value / increment of ProcDpath")
+    first = rvk + incs[0].kwargs.get('amount', 1)
+    if first != rv:
+        r.bad(dp, 'ProcDpath.construct', cons, f"the first fetch goes to {first:#x} (reset value {rvk:#x} + {incs[0].kwargs.get('amount', 1)}), "
+                                               f"the ISA reset vector is {rv:#x}")
+    else:
+        r.ok(dp, 'ProcDpath.construct', cons)
+    r.require_floor(6)
+    return r
+
+
+# ---------------------------------------------------------------------------
+# R-C20-cksum: the three checksum models compute the same function of the 8 input words
+def cksum_reference(words):
+    """the specification (docstring of ChecksumFL.py): Fletcher's sums with modulus 65536, result sum2:sum1"""
+    s1 = s2 = BV.const(0, 16)
+    for w in words:
+        s1 = U.binop('and', U.binop('add', s1, w), 0xffff)
+        s2 = U.binop('and', U.binop('add', s2, s1), 0xffff)
+    return U.do_concat([s2, s1])
+
+
+def msg_words():
+    msg = Sym(('msg',), 128)
+    return msg, [U.do_slice(msg, 16 * i, 16 * i + 16) for i in range(8)]
+
+
+def rule_cksum(repo):
+    r = RuleResult('R-C20-cksum', "ChecksumFL.checksum, ChecksumCL (unpacking + the same function) and ChecksumRTL (eight chained "
+                                  "step units + final combination) denote the same arithmetic function of the eight 16-bit words "
+                                  "(word order, operand widths, modulus 2^16, result sum2:sum1), compared in a modular normal form")
+    fl = repo.mod(CK_FL)
+    f = fl.functions.get('checksum')
+    if f is None:
+        raise AnalysisError("anchor vanished: ChecksumFL.checksum")
+    # FL on eight free 16-bit words
+    free = [Sym(('w', i), 16) for i in range(8)]
+    want = cksum_reference(free)
+    cons = "checksum(words) == concat(sum2, sum1), sum1 += w, sum2 += sum1 (mod 2^16), words in order"
+    try:
+        got = Interp(repo, fl, Ctx(), self_name=None).call_func(U.FuncRef(fl, f), [list(free)], {})
+    except Raised as e:
+        got = None
+    r.evaluations += 1
+    if got is None or T(got) != T(want):
+        r.bad(fl, 'checksum', cons, f"the FL function computes {show(T(got)) if got is not None else 'an exception'}; the "
+                                    f"specification is {show(T(want))}")
+    else:
+        r.ok(fl, 'checksum', cons)
+    # pack / unpack helpers are inverse and little-endian in words
+    ut = repo.mod(CK_UTILS)
+    for need in ('words_to_b128', 'b128_to_words'):
+        if need not in ut.functions:
+            raise AnalysisError(f"anchor vanished: {need}")
+    srcw = [BV(('m', 16 * i + k) for k in range(16)) for i in range(8)]
+    it = Interp(repo, ut, Ctx(), self_name=None)
+    cons = "words_to_b128: word i occupies bits 16i..16i+15; b128_to_words is its inverse"
+    try:
+        packed = it.call_func(U.FuncRef(ut, ut.functions['words_to_b128']), [list(srcw)], {})
+        back = it.call_func(U.FuncRef(ut, ut.functions['b128_to_words']), [packed], {})
+        ok = isinstance(packed, BV) and packed.bits == tuple(('m', k) for k in range(128)) and back == srcw
+    except Raised:
+        ok = False
+    r.evaluations += 2
+    if ok:
+        r.ok(ut, 'words_to_b128', cons)
+    else:
+        r.bad(ut, 'words_to_b128', cons, "packing and unpacking of the 128-bit message disagree on the word order: FL (list of "
+                                         "words) and CL/RTL (packed message) see different inputs")
+    msg, words = msg_words()
+    want = cksum_reference(words)
+    # CL
+    cl = repo.mod(CK_CL)
+    d = design(repo, CK_CL, 'ChecksumCL')
+    if len(d.top.blocks) != 1:
+        raise AnalysisError("ChecksumCL no longer has a single update block")
+    sent = []
+
+    class M(Model):
+        def call(self, path, args, kwargs):
+            if path.endswith('.rdy') and not args:
+                return True
+            if path.endswith('.deq') and not args:
+                return msg
+            if path == 's.send' and len(args) == 1:
+                sent.append(args[0])
+                return None
+            raise AnalysisError(f"call of {path} outside the checksum CL model")
+    sname = d.top.sname
+    try:
+        Interp(repo, cl, Ctx(), M(), self_name='s' if sname == 's' else sname).run(d.top.blocks[0].func.body)
+    except Raised:
+        sent = []
+    r.evaluations += 1
+    cons = "ChecksumCL: send( checksum( b128_to_words( msg ) ) )"
+    if len(sent) != 1 or T(sent[0]) != T(want):
+        r.bad(cl, 'ChecksumCL.construct.' + d.top.blocks[0].func.name, cons,
+              f"the CL model sends {show(T(sent[0])) if len(sent) == 1 else f'{len(sent)} messages'}; the specification is {show(T(want))}")
+    else:
+        r.ok(cl, 'ChecksumCL.construct.' + d.top.blocks[0].func.name, cons)
+    # RTL
+    rt = repo.mod(CK_RTL)
+    dr = design(repo, CK_RTL, 'ChecksumRTL')
+    qs = [p for p, i in dr.insts.items() if p and i.kind == 'opaque' and
+          any(mn in ('recv', 'recv.msg') for mn, sl in dr.members((p + '.enq', None)))]
+    if len(qs) != 1:
+        raise AnalysisError("ChecksumRTL: cannot identify the input queue (the queue connected to recv)")
+    over = {qs[0] + '.deq.ret': msg}
+    ev = Eval(dr, over, Ctx())
+    for p in dr.insts:
+        ev.over[(p + '.reset') if p else 'reset'] = BV.const(0, 1)
+    try:
+        got = ev.value('send.msg')
+    except Raised:
+        got = None
+    r.evaluations += ev.blocks_run
+    steps = [p for p, i in dr.insts.items() if i.kind == 'src' and p]
+    cons = f"ChecksumRTL: send.msg over {len(steps)} chained step units"
+    if got is None or T(got) != T(want):
+        r.bad(rt, 'ChecksumRTL.construct', cons, f"the RTL model outputs {show(T(got)) if got is not None else 'nothing'}; the "
+                                                 f"specification is {show(T(want))}")
+    else:
+        r.ok(rt, 'ChecksumRTL.construct', cons)
+    if len(steps) < 8:
+        r.bad(rt, 'ChecksumRTL.construct', 'eight step units', f"only {len(steps)} step units are instantiated")
+    else:
+        r.ok(rt, 'ChecksumRTL.construct', 'eight step units')
+    r.require_floor(5)
+    return r
+
+
+RULES = [rule_isa_doc, rule_encoding, rule_isa_set, rule_decode, rule_fl, rule_cl, rule_rtl, rule_arch, rule_cksum]
+
+
+# ---------------------------------------------------------------------------
+# self-test of the checker (thorough tier)
+def _m(name, file, old, new, rule=None, count=1):
+    return dict(name=name, file=file, old=old, new=new, rule=rule, count=count)
+
+
+def _m2(name, edits, rule=None):
+    return dict(name=name, file=edits[0][0], old=edits[0][1], new=edits[0][2], rule=rule,
+                edits=[dict(file=f, old=o, new=n, count=1) for f, o, n in edits])
+
+
+MUTANTS = [
+    # --- ProcFL ---------------------------------------------------------------------------------------------------
+    _m('fl-add-wrong-reg', FL, "s.R[inst.rd] = s.R[inst.rs1] + s.R[inst.rs2]", "s.R[inst.rd] = s.R[inst.rs1] + s.R[inst.rs1]", 'R-C20-fl'),
+    _m('fl-sll-shamt-unmasked', FL, "s.R[inst.rs1] << (s.R[inst.rs2] & 0x1F)", "s.R[inst.rs1] << s.R[inst.rs2]", 'R-C20-fl'),
+    _m('fl-srl-becomes-sll', FL, "s.R[inst.rs1] >> (s.R[inst.rs2].uint() & 0x1F)", "s.R[inst.rs1] << (s.R[inst.rs2].uint() & 0x1F)", 'R-C20-fl'),
+    _m('fl-addi-wrong-imm-field', FL, "s.R[inst.rd] = s.R[inst.rs1] + sext( inst.i_imm, 32 )", "s.R[inst.rd] = s.R[inst.rs1] + sext( inst.s_imm, 32 )", 'R-C20-fl'),
+    _m('fl-addi-zero-extended', FL, "s.R[inst.rd] = s.R[inst.rs1] + sext( inst.i_imm, 32 )", "s.R[inst.rd] = s.R[inst.rs1] + zext( inst.i_imm, 32 )", 'R-C20-fl'),
+    _m('fl-sw-stores-rs1', FL, "s.dmem.write( addr, 4, s.R[inst.rs2] )", "s.dmem.write( addr, 4, s.R[inst.rs1] )", 'R-C20-fl'),
+    _m('fl-lw-wrong-dest', FL, "s.R[inst.rd] = s.dmem.read( addr, 4 )", "s.R[inst.rs2] = s.dmem.read( addr, 4 )", 'R-C20-fl'),
+    _m('fl-bne-inverted', FL, "if s.R[inst.rs1] != s.R[inst.rs2]:", "if s.R[inst.rs1] == s.R[inst.rs2]:", 'R-C20-fl'),
+    _m('fl-bne-target-plus4', FL, "s.PC = s.PC + sext( inst.b_imm, 32 )", "s.PC = s.PC + 4 + sext( inst.b_imm, 32 )", 'R-C20-fl'),
+    _m('fl-csrw-wrong-csr', FL, "if   inst.csrnum == 0x7C0:", "if   inst.csrnum == 0x7C1:", 'R-C20-fl'),
+    _m('fl-xcel-range', FL, "elif 0x7E0 <= inst.csrnum <= 0x7FF:\n            s.R[inst.rd] = s.xcel.read", "elif 0x7E0 <= inst.csrnum <= 0x7EF:\n            s.R[inst.rd] = s.xcel.read", 'R-C20-fl'),
+    _m('fl-and-becomes-or', FL, "s.R[inst.rd] = s.R[inst.rs1] & s.R[inst.rs2]", "s.R[inst.rd] = s.R[inst.rs1] | s.R[inst.rs2]", 'R-C20-fl'),
+    _m('fl-and-branch-lost', FL, 'elif inst_name == "and":', 'elif inst_name == "andn":', 'R-C20'),
+    _m('fl-fetch-address', FL, "s.raw_inst = s.imem.read( s.PC, 4 )", "s.raw_inst = s.imem.read( s.PC + 4, 4 )", 'R-C20-fl'),
+    _m('fl-lw-pc-not-advanced', FL, "s.R[inst.rd] = s.dmem.read( addr, 4 )\n          s.PC += 4", "s.R[inst.rd] = s.dmem.read( addr, 4 )", 'R-C20-fl'),
+    # --- tinyrv0_encoding -----------------------------------------------------------------------------------------
+    _m('enc-and-funct3', ENC, "0b00000000000000000111000000110011 ], # R-type", "0b00000000000000000110000000110011 ], # R-type", 'R-C20-encoding'),
+    _m('enc-sll-mask-ignores-funct7', ENC, '[ "sll    rd, rs1, rs2",     0b11111110000000000111000001111111', '[ "sll    rd, rs1, rs2",     0b00000000000000000111000001111111', 'R-C20-encoding'),
+    _m('enc-sw-operands-swapped', ENC, '"sw     rs2, s_imm(rs1)"', '"sw     rs1, s_imm(rs2)"', 'R-C20-encoding'),
+    _m('enc-row-lost', ENC, '  [ "srl    rd, rs1, rs2", ', '  [ "sra    rd, rs1, rs2", ', 'R-C20'),
+    _m('name-srl-funct3', ENC, 'elif self.funct3 == 0b101: return "srl"', 'elif self.funct3 == 0b100: return "srl"', 'R-C20-decode'),
+    _m('name-lw-sw-swapped', ENC, 'if self.funct3 == 0b010: return "sw"', 'if self.funct3 == 0b010: return "lw"', 'R-C20-decode'),
+    _m('field-rs2-slice', ENC, "tinyrv0_field_slice_rs2    = slice( 20, 25 )", "tinyrv0_field_slice_rs2    = slice( 19, 24 )", 'R-C20'),
+    _m('bimm-bit11-from-bit31', ENC, "    imm[11:12] = self.bits[ tinyrv0_field_slice_b_imm2 ]", "    imm[11:12] = self.bits[ tinyrv0_field_slice_b_imm3 ]", 'R-C20-fl'),
+    _m('simm-low-bits-from-rs2', ENC, "    imm[0:5]  = self.bits[ tinyrv0_field_slice_s_imm0 ]", "    imm[0:5]  = self.bits[ tinyrv0_field_slice_rs2 ]", 'R-C20-fl'),
+    _m('asm-bimm-shifted', ENC, "bits[ tinyrv0_field_slice_b_imm0 ] = imm[1:5]", "bits[ tinyrv0_field_slice_b_imm0 ] = imm[0:4]", 'R-C20-encoding'),
+    _m('asm-simm-halves-swapped', ENC, "bits[ tinyrv0_field_slice_s_imm0 ] = imm[0:5 ]\n  bits[ tinyrv0_field_slice_s_imm1 ] = imm[5:12]",
+       "bits[ tinyrv0_field_slice_s_imm0 ] = imm[7:12]\n  bits[ tinyrv0_field_slice_s_imm1 ] = imm[0:7]", 'R-C20-encoding'),
+    _m('asm-csr-name-number', ENC, "    imm = 0xFC0", "    imm = 0xFC1", 'R-C20-encoding'),
+    _m('asm-rd-into-rs1', ENC, "  bits[ tinyrv0_field_slice_rd ] = reg_specifier", "  bits[ tinyrv0_field_slice_rs1 ] = reg_specifier", 'R-C20-encoding'),
+    _m('enc-csrw-funct3', ENC, "0b00000000000000000001000001110011 ], # I-type, csrrw", "0b00000000000000000010000001110011 ], # I-type, csrrw", 'R-C20-encoding'),
+    _m('csrnum-wrong-slice', ENC, "  def csrnum( self ):\n    return self.bits[ tinyrv0_field_slice_i_imm ]", "  def csrnum( self ):\n    return self.bits[ tinyrv0_field_slice_s_imm1 ]", 'R-C20'),
+    _m('x0-writable', ENC, "    if idx != 0:\n      self.regs[idx] = Bits32( value )", "    if idx != 32:\n      self.regs[idx] = Bits32( value )", 'R-C20-arch'),
+    # --- ProcCL ---------------------------------------------------------------------------------------------------
+    _m('cl-add-wrong-reg', CL, "s.R[ inst.rs1 ] + s.R[ inst.rs2 ], DXM_W.arith", "s.R[ inst.rs1 ] + s.R[ inst.rs1 ], DXM_W.arith", 'R-C20-cl'),
+    _m('cl-sw-wrong-imm', CL, "s.R[ inst.rs1 ] + sext(inst.s_imm, 32),", "s.R[ inst.rs1 ] + sext(inst.i_imm, 32),", 'R-C20-cl'),
+    _m('cl-lw-writes-back-zero', CL, "s.DXM_W_queue.enq( (inst.rd, 0, DXM_W.mem) )", "s.DXM_W_queue.enq( (inst.rd, 0, DXM_W.arith) )", 'R-C20-cl'),
+    _m('cl-bne-target-from-fetch-pc', CL, "s.redirected_pc_DXM = pc + sext(inst.b_imm, 32)", "s.redirected_pc_DXM = s.pc + sext(inst.b_imm, 32)", 'R-C20-cl'),
+    _m('cl-csrw-sends-rs2', CL, "s.DXM_W_queue.enq( (0, s.R[ inst.rs1 ], DXM_W.mngr) )", "s.DXM_W_queue.enq( (0, s.R[ inst.rs2 ], DXM_W.mngr) )", 'R-C20-cl'),
+    _m('cl-pc-enqueued-after-increment', CL, "        s.F_DXM_queue.enq( s.pc )\n        s.F_status = PipelineStatus.work\n        s.pc += 4",
+       "        s.pc += 4\n        s.F_DXM_queue.enq( s.pc )\n        s.F_status = PipelineStatus.work", 'R-C20-cl'),
+    _m('cl-xcel-read-is-write', CL, "xreq_class( XcelMsgType.READ, inst.csrnum[0:5], s.R[inst.rs1])", "xreq_class( XcelMsgType.WRITE, inst.csrnum[0:5], s.R[inst.rs1])", 'R-C20-cl'),
+    _m('cl-store-addr-data-swapped', CL, "s.R[ inst.rs1 ] + sext(inst.s_imm, 32),\n                                      0,\n                                      s.R[ inst.rs2 ] ) )",
+       "s.R[ inst.rs2 ],\n                                      0,\n                                      s.R[ inst.rs1 ] + sext(inst.s_imm, 32) ) )", 'R-C20-cl'),
+    _m('cl-wb-load-from-xcel-queue', CL, "s.R[ rd ] = Bits32( s.dmemresp_q.deq().data )", "s.R[ rd ] = Bits32( s.xcelresp_q.deq().data )", 'R-C20-cl'),
+    _m('cl-srl-amount-unmasked', CL, "s.R[inst.rs1] >> (s.R[inst.rs2].uint() & 0x1F)", "s.R[inst.rs1] >> s.R[inst.rs2].uint()", 'R-C20-cl'),
+    _m('cl-mngr2proc-not-dequeued', CL, "s.DXM_W_queue.enq( (inst.rd, s.mngr2proc_q.deq(), DXM_W.arith) )", "s.DXM_W_queue.enq( (inst.rd, s.mngr2proc_q.peek(), DXM_W.arith) )", 'R-C20-cl'),
+    _m('cl-store-response-left-in-queue', CL, "              else: # store\n                s.dmemresp_q.deq()", "              else: # store\n                pass", 'R-C20-cl'),
+    # --- ProcCtrlRTL ----------------------------------------------------------------------------------------------
+    _m('ctrl-mngr2proc-always-dequeued', CTRL, "s.mngr2proc_en @= s.val_D & ~s.stall_D & ~s.squash_D & s.mngr2proc_D", "s.mngr2proc_en @= s.val_D & ~s.stall_D & ~s.squash_D", 'R-C20-rtl'),
+    _m('ctrl-store-response-not-consumed', CTRL, "s.dmemresp_en @= s.val_M & ~s.stall_M & ( s.dmemreq_type_M != nr )", "s.dmemresp_en @= s.val_M & ~s.stall_M & ( s.dmemreq_type_M == ld )", 'R-C20-rtl'),
+    _m('ctrl-add-alu-fn', CTRL, "elif inst == ADD  : s.cs @= concat( y, br_na,  y, imm_x, bm_rf,  y, alu_add,", "elif inst == ADD  : s.cs @= concat( y, br_na,  y, imm_x, bm_rf,  y, alu_and,", 'R-C20-rtl'),
+    _m('ctrl-addi-op2-from-rf', CTRL, "elif inst == ADDI : s.cs @= concat( y, br_na,  y, imm_i, bm_imm,", "elif inst == ADDI : s.cs @= concat( y, br_na,  y, imm_i, bm_rf, ", 'R-C20-rtl'),
+    _m('ctrl-sw-imm-type', CTRL, "elif inst == SW   : s.cs @= concat( y, br_na,  y, imm_s,", "elif inst == SW   : s.cs @= concat( y, br_na,  y, imm_i,", 'R-C20-rtl'),
+    _m('ctrl-lw-wb-select', CTRL, "alu_add, ld, wm_m, y,  n, n )", "alu_add, ld, wm_a, y,  n, n )", 'R-C20-rtl'),
+    _m('ctrl-sw-writes-rf', CTRL, "alu_add, st, wm_m, n,  n, n )", "alu_add, st, wm_m, y,  n, n )", 'R-C20-rtl'),
+    _m('ctrl-bne-not-a-branch', CTRL, "elif inst == BNE  : s.cs @= concat( y, br_ne,", "elif inst == BNE  : s.cs @= concat( y, br_na,", 'R-C20-rtl'),
+    _m('ctrl-lw-is-store', CTRL, "alu_add, ld, wm_m, y,  n, n )", "alu_add, st, wm_m, y,  n, n )", 'R-C20-rtl'),
+    _m('ctrl-csrw-flag-lost', CTRL, "alu_cp0, nr, wm_a, n,  n, y )", "alu_cp0, nr, wm_a, n,  n, n )", 'R-C20-rtl'),
+    _m('ctrl-csrw-copies-op2', CTRL, "bm_imm, n, alu_cp0, nr, wm_a, n,  n, y )", "bm_imm, n, alu_cp1, nr, wm_a, n,  n, y )", 'R-C20-rtl'),
+    _m('ctrl-cs-slice-shifted', CTRL, "s.alu_fn_D         @= s.cs[7:11]", "s.alu_fn_D         @= s.cs[8:12]", 'R-C20-rtl'),
+    _m('ctrl-pipeline-reg-crosswired', CTRL, "s.wb_result_sel_X  <<= s.wb_result_sel_D", "s.wb_result_sel_X  <<= s.dmemreq_type_D", 'R-C20-rtl'),
+    _m('ctrl-store-type-inverted', CTRL, "zext( s.dmemreq_type_X == st, 4 )", "zext( s.dmemreq_type_X == ld, 4 )", 'R-C20-rtl'),
+    _m('ctrl-rf-wen-unconditional', CTRL, "s.rf_wen_W @= s.val_W & s.rf_wen_pending_W", "s.rf_wen_W @= s.val_W", 'R-C20-rtl'),
+    _m('ctrl-redirect-inverted', CTRL, "(s.br_type_X == br_ne) & s.ne_X", "(s.br_type_X == br_ne) & ~s.ne_X", 'R-C20-rtl'),
+    _m('ctrl-alu-code-alias', CTRL, "alu_srl = b4( 4 )", "alu_srl = b4( 3 )", 'R-C20-rtl'),
+    _m('ctrl-mngr2proc-select', CTRL, "s.mngr2proc_D    @= s.csrr_D & ( s.inst_D[CSRNUM] == CSR_MNGR2PROC )", "s.mngr2proc_D    @= s.csrr_D & ( s.inst_D[CSRNUM] == CSR_PROC2MNGR )", 'R-C20-rtl'),
+    _m('ctrl-waddr-from-rs1', CTRL, "s.rf_waddr_D @= s.inst_D[RD]", "s.rf_waddr_D @= s.inst_D[RS1]", 'R-C20-rtl'),
+    _m('ctrl-xcel-type-swapped', CTRL, "s.xcelreq_type_D @= XcelMsgType.READ", "s.xcelreq_type_D @= XcelMsgType.WRITE", 'R-C20-rtl'),
+    # --- TinyRV0InstRTL -------------------------------------------------------------------------------------------
+    _m('dec-add-funct3', INSTRTL, "if   s.in_[FUNCT3] == 0b000:     s.out @= ADD", "if   s.in_[FUNCT3] == 0b100:     s.out @= ADD", 'R-C20'),
+    _m('dec-sll-srl-swapped', INSTRTL, "elif s.in_[FUNCT3] == 0b001:     s.out @= SLL", "elif s.in_[FUNCT3] == 0b001:     s.out @= SRL", 'R-C20'),
+    _m('dec-code-collision', INSTRTL, "SRL   =  b8(11)", "SRL   =  b8(9)", 'R-C20'),
+    _m('dec-csr-constant', INSTRTL, "CSR_PROC2MNGR = b12(0x7C0)", "CSR_PROC2MNGR = b12(0x7C1)", 'R-C20-rtl'),
+    _m('dec-rs2-slice', INSTRTL, "RS2    = slice( 20, 25 )", "RS2    = slice( 21, 26 )", 'R-C20-rtl'),
+    _m('dec-xcel-funct7', INSTRTL, "if s.in_[FUNCT7] == 0b0111111:   s.out @= CSRRX", "if s.in_[FUNCT7] == 0b0111110:   s.out @= CSRRX", 'R-C20'),
+    # --- MiscRTL --------------------------------------------------------------------------------------------------
+    _m('alu-srl-is-sll', MISC, "elif s.fn == 4: s.out @= s.in0 >> zext(s.in1[0:5], 32)", "elif s.fn == 4: s.out @= s.in0 << zext(s.in1[0:5], 32)", 'R-C20-rtl'),
+    _m('alu-shamt-4-bits', MISC, "elif s.fn == 3: s.out @= s.in0 << zext(s.in1[0:5], 32)", "elif s.fn == 3: s.out @= s.in0 << zext(s.in1[0:4], 32)", 'R-C20-rtl'),
+    _m('alu-add-is-sub', MISC, "elif s.fn == 2: s.out @= s.in0 + s.in1", "elif s.fn == 2: s.out @= s.in0 - s.in1", 'R-C20-rtl'),
+    _m('alu-ne-is-eq', MISC, "s.ops_ne @= s.in0 != s.in1", "s.ops_ne @= s.in0 == s.in1", 'R-C20-rtl'),
+    _m('immgen-s-type-code', MISC, "elif s.imm_type == 1: # S-type", "elif s.imm_type == 3: # S-type", 'R-C20-rtl'),
+    _m('immgen-i-zero-extended', MISC, "concat( sext( s.inst[ I_IMM ], 32 ) )", "concat( zext( s.inst[ I_IMM ], 32 ) )", 'R-C20-rtl'),
+    _m('immgen-b-low-bit', MISC, "                               s.inst[ B_IMM0 ],\n                               b1( 0 ) )", "                               b1( 0 ),\n                               s.inst[ B_IMM0 ] )", 'R-C20-rtl'),
+    # --- ProcDpathRTL / ProcRTL -----------------------------------------------------------------------------------
+    _m2('dp-op2-mux-inputs-swapped', [(DPATH, "m.in_[1] //= s.immgen_D.imm", "m.in_[2] //= s.immgen_D.imm"),
+                                      (DPATH, "m.in_[2] //= s.mngr2proc_data", "m.in_[1] //= s.mngr2proc_data")], 'R-C20-rtl'),
+    _m('dp-store-data-from-op1', DPATH, "m.in_ //= s.op2_byp_mux_D.out # R[rs2]", "m.in_ //= s.op1_byp_mux_D.out # R[rs2]", 'R-C20-rtl'),
+    _m('dp-branch-target-from-next-pc', DPATH, "m.in0 //= s.pc_reg_D.out", "m.in0 //= s.pc_plus4_F", 'R-C20-rtl'),
+    _m2('dp-wb-mux-inputs-swapped', [(DPATH, "m.in_[1] //= s.dmemresp_data", "m.in_[2] //= s.dmemresp_data"),
+                                     (DPATH, "m.in_[2] //= s.xcelresp_data", "m.in_[1] //= s.xcelresp_data")], 'R-C20-rtl'),
+    _m('dp-reset-vector', DPATH, "reset_value=c_reset_vector-4", "reset_value=c_reset_vector", 'R-C20-arch'),
+    _m('dp-x0-not-constant', DPATH, "wr_ports=1, const_zero=True", "wr_ports=1, const_zero=False", 'R-C20-arch'),
+    _m('dp-xcel-addr-from-op1', DPATH, "s.xcelreq_addr //= s.op2_reg_X.out[0:5]", "s.xcelreq_addr //= s.op1_reg_X.out[0:5]", 'R-C20-rtl'),
+    _m('dp-rs1-read-port', DPATH, "m.raddr[0] //= s.inst_D[ RS1 ]", "m.raddr[0] //= s.inst_D[ RD ]", 'R-C20-rtl'),
+    _m('dp-alu-operands-swapped', DPATH, "m.in0    //= s.op1_reg_X.out\n    m.in1    //= s.op2_reg_X.out", "m.in0    //= s.op2_reg_X.out\n    m.in1    //= s.op1_reg_X.out", 'R-C20-rtl'),
+    _m2('top-dmem-addr-data-swapped', [(RTL, "m.dmemreq_addr  //= s.dmem.req.msg.addr", "m.dmemreq_addr  //= s.dmem.req.msg.data"),
+                                       (RTL, "m.dmemreq_data  //= s.dmem.req.msg.data", "m.dmemreq_data  //= s.dmem.req.msg.addr")], 'R-C20-rtl'),
+    _m('top-mngr2proc-data-from-xcel', RTL, "m.mngr2proc_data //= s.mngr2proc_q.deq.ret", "m.mngr2proc_data //= s.xcelresp_q.deq.ret.data", 'R-C20-rtl'),
+    _m('top-proc2mngr-enable', RTL, "m.proc2mngr_en  //= s.proc2mngr.en", "m.commit_inst  //= s.proc2mngr.en", 'R-C20-rtl'),
+    # --- checksum -------------------------------------------------------------------------------------------------
+    _m('ck-rtl-mask-12-bits', CK_RTL, "s.sum1_out @= temp1 & 0xffff", "s.sum1_out @= temp1 & 0xfff", 'R-C20-cksum'),
+    _m('ck-rtl-chain-crossed', CK_RTL, "s.steps[i].sum2_in //= s.steps[i-1].sum2_out", "s.steps[i].sum2_in //= s.steps[i-1].sum1_out", 'R-C20-cksum'),
+    _m('ck-rtl-halves-swapped', CK_RTL, "( s.sum2 << 16 ) | s.sum1", "( s.sum1 << 16 ) | s.sum2", 'R-C20-cksum'),
+    _m('ck-rtl-word-order', CK_RTL, "s.in_q.deq.ret[i*16:(i+1)*16]", "s.in_q.deq.ret[(7-i)*16:(8-i)*16]", 'R-C20-cksum'),
+    _m('ck-rtl-sum2-uses-word', CK_RTL, "temp2 = s.sum1_out + s.sum2_in", "temp2 = zext(s.word_in, 32) + s.sum2_in", 'R-C20-cksum'),
+    _m('ck-rtl-last-step-skipped', CK_RTL, "s.sum1 //= s.steps[-1].sum1_out", "s.sum1 //= s.steps[-2].sum1_out", 'R-C20-cksum'),
+    _m('ck-fl-sum2-adds-word', CK_FL, "sum2 = ( sum2 + sum1 ) & 0xffff", "sum2 = ( sum2 + word ) & 0xffff", 'R-C20-cksum'),
+    _m('ck-fl-result-order', CK_FL, "return concat( sum2, sum1 )", "return concat( sum1, sum2 )", 'R-C20-cksum'),
+    _m('ck-cl-word-zeroed', CK_CL, "        result = checksum( words )", "        words[5] = b16(0)\n        result = checksum( words )", 'R-C20-cksum'),
+    _m('ck-utils-unpack-order', CK_UTILS, "words = [ bits[i*16:(i+1)*16] for i in range( 8 ) ]", "words = [ bits[(7-i)*16:(8-i)*16] for i in range( 8 ) ]", 'R-C20-cksum'),
+]
+
+EQUIV = [
+    _m('fl-add-commuted', FL, "s.R[inst.rd] = s.R[inst.rs1] + s.R[inst.rs2]", "s.R[inst.rd] = s.R[inst.rs2] + s.R[inst.rs1]"),
+    _m('fl-lw-address-inlined', FL, "addr = s.R[inst.rs1] + sext( inst.i_imm, 32 )\n          s.R[inst.rd] = s.dmem.read( addr, 4 )",
+       "s.R[inst.rd] = s.dmem.read( sext( inst.i_imm, 32 ) + s.R[inst.rs1], 4 )"),
+    _m('fl-bne-as-not-eq', FL, "if s.R[inst.rs1] != s.R[inst.rs2]:", "if not (s.R[inst.rs1] == s.R[inst.rs2]):"),
+    _m('fl-bne-branches-exchanged', FL, "if s.R[inst.rs1] != s.R[inst.rs2]:\n            s.PC = s.PC + sext( inst.b_imm, 32 )\n          else:\n            s.PC += 4",
+       "if s.R[inst.rs2] == s.R[inst.rs1]:\n            s.PC = s.PC + 4\n          else:\n            s.PC = sext( inst.b_imm, 32 ) + s.PC"),
+    _m('fl-shamt-mask-as-slice', FL, "s.R[inst.rs1] << (s.R[inst.rs2] & 0x1F)", "s.R[inst.rs1] << zext( s.R[inst.rs2][0:5], 32 )"),
+    _m('fl-local-renamed', FL, "inst_name", "mnemonic", count=None),
+    _m('fl-pc-advanced-first', FL, "s.R[inst.rd] = s.R[inst.rs1] + s.R[inst.rs2]\n          s.PC += 4", "s.PC += 4\n          s.R[inst.rd] = s.R[inst.rs1] + s.R[inst.rs2]"),
+    _m('cl-response-queue-renamed', CL, "s.dmemresp_q", "s.dresp_q", count=None),
+    _m('rtl-response-queue-renamed', RTL, "s.dmemresp_q", "s.dresp_q", count=None),
+    _m('dp-alias-not-used', DPATH, "m.in0    //= s.op1_reg_X.out", "s.alu_X.in0 //= s.op1_reg_X.out"),
+    _m('top-connection-direction', RTL, "s.ctrl.alu_fn_X        //= s.dpath.alu_fn_X", "s.dpath.alu_fn_X //= s.ctrl.alu_fn_X"),
+    _m2('enc-rows-reordered', [(ENC, '  [ "lw     rd, i_imm(rs1)",   0b00000000000000000111000001111111, 0b00000000000000000010000000000011 ], # I-type\n  [ "sw     rs2, s_imm(rs1)",  0b00000000000000000111000001111111, 0b00000000000000000010000000100011 ], # S-type',
+                                '  [ "sw     rs2, s_imm(rs1)",  0b00000000000000000111000001111111, 0b00000000000000000010000000100011 ], # S-type\n  [ "lw     rd, i_imm(rs1)",   0b00000000000000000111000001111111, 0b00000000000000000010000000000011 ], # I-type')]),
+    _m('cl-x0-guard-redundant', CL, "if rd > 0: s.R[ rd ] = Bits32( data )", "s.R[ rd ] = Bits32( data )"),
+    _m('cl-execute-block-renamed', CL, "def DXM():", "def DXM_stage():"),
+    _m('cl-bne-as-not-eq', CL, "if s.R[ inst.rs1 ] != s.R[ inst.rs2 ]:", "if not (s.R[ inst.rs2 ] == s.R[ inst.rs1 ]):"),
+    _m2('ctrl-rows-reordered', [(CTRL, "      elif inst == ADD  : s.cs @= concat( y, br_na,  y, imm_x, bm_rf,  y, alu_add, nr, wm_a, y,  n, n )\n      elif inst == SLL  : s.cs @= concat( y, br_na,  y, imm_x, bm_rf,  y, alu_sll, nr, wm_a, y,  n, n )",
+                                 "      elif inst == SLL  : s.cs @= concat( y, br_na,  y, imm_x, bm_rf,  y, alu_sll, nr, wm_a, y,  n, n )\n      elif inst == ADD  : s.cs @= concat( y, br_na,  y, imm_x, bm_rf,  y, alu_add, nr, wm_a, y,  n, n )")]),
+    _m('ctrl-dont-care-renamed', CTRL, "if   inst == NOP  : s.cs @= concat( y, br_na,  n, imm_x, bm_x,   n, alu_x,   nr, wm_a, n,  n, n )",
+       "if   inst == NOP  : s.cs @= concat( y, br_x,   n, imm_i, bm_rf,  n, alu_cp0, nr, wm_x, n,  n, n )"),
+    _m2('alu-code-renumbered-consistently', [(CTRL, "alu_and = b4( 5 )", "alu_and = b4( 9 )"), (MISC, "elif s.fn == 5: s.out @= s.in0 & s.in1", "elif s.fn == 9: s.out @= s.in1 & s.in0")]),
+    _m('inst-code-renumbered', INSTRTL, "ADD   =  b8(15)", "ADD   =  b8(17)"),
+    _m2('decoder-branches-reordered', [(INSTRTL, "        elif s.in_[FUNCT3] == 0b111:     s.out @= AND\n        elif s.in_[FUNCT3] == 0b101:     s.out @= SRL",
+                                        "        elif s.in_[FUNCT3] == 0b101:     s.out @= SRL\n        elif s.in_[FUNCT3] == 0b111:     s.out @= AND")]),
+    _m('immgen-concat-of-one', MISC, "s.imm @= concat( sext( s.inst[ I_IMM ], 32 ) )", "s.imm @= sext( s.inst[ I_IMM ], 32 )"),
+    _m('enc-mask-in-hex', ENC, "0b00000000000000000111000001111111, 0b00000000000000000010000000000011 ], # I-type", "0x0000707f, 0x00002003 ], # I-type"),
+    _m('name-nop-in-hex', ENC, "if self.bits == 0b00000000000000000000000000010011:", "if self.bits == 0x13:"),
+    _m('name-opcode-tests-reordered', ENC, '    elif self.opcode == 0b0100011:\n      if self.funct3 == 0b010: return "sw"\n\n    elif self.opcode == 0b0000011:\n      if self.funct3 == 0b010: return "lw"',
+       '    elif self.opcode == 0b0000011:\n      if self.funct3 == 0b010: return "lw"\n\n    elif self.opcode == 0b0100011:\n      if self.funct3 == 0b010: return "sw"'),
+    _m('ck-rtl-unmasked-intermediate', CK_RTL, "temp2 = s.sum1_out + s.sum2_in", "temp2 = temp1 + s.sum2_in"),
+    _m('ck-rtl-add-commuted', CK_RTL, "temp1 = zext(s.word_in, 32) + s.sum1_in", "temp1 = s.sum1_in + zext(s.word_in, 32)"),
+    _m('ck-fl-redundant-mask-dropped', CK_FL, "sum1 = ( sum1 + word ) & 0xffff", "sum1 = sum1 + word"),
+    _m('ck-rtl-combine-as-concat', CK_RTL, "s.send.msg @= ( s.sum2 << 16 ) | s.sum1", "s.send.msg @= concat( s.sum2[0:16], s.sum1[0:16] )"),
+]
+
+LEVEL_TEXT = ("Clauses only. Static single-instruction agreement of the three TinyRV0 processor models with the ISA document: the "
+              "document is parsed into a normal form (semantics, field and immediate bit positions, encodings) and checked against a "
+              "frozen reference; the encoding table, the assembler field functions, the FL/CL decoder, the RTL decoder, the FL and CL "
+              "execute code and the RTL control table composed with the datapath are evaluated symbolically over every word of every "
+              "instruction's cube and compared with that normal form; the three checksum models are compared in a modular normal form. "
+              "Agreement of executions for every program and every timing configuration (memory latency, stall probability, src/sink "
+              "delays) is NOT decided.")
+LEVEL_NOTE = ("Not decided: pipeline control of ProcRTL/ProcCL (stalls, bypass selection, squashes, back-pressure, response ordering), "
+              "instruction adjacency, timing, termination, adapters, the generic assembler driver. Decided: decode uniqueness and "
+              "decoder/table agreement on all legal words, instruction-set agreement, per-instruction datapath semantics of FL, CL and "
+              "RTL (steady-flow abstraction) against the ISA document, x0 / reset vector, checksum arithmetic of FL/CL/RTL. Trusted: "
+              "Bits arithmetic (C04/C05), stdlib Mux/Reg/Adder/RegisterFile, message field order as read from the source.")
+TECHNIQUE = ("ast extraction of tables and netlists; symbolic abstract interpretation of the models' decode/execute code over "
+             "(mask, match) cubes of the instruction space with exhaustive case splitting on tested instruction bits; modular-arithmetic "
+             "normal forms compared with a specification parsed from the ISA document and a frozen reference")
